@@ -11,12 +11,14 @@ package verifharness
 // is evaluated on the real chains' own views, independently of the model.
 //
 // op language (all numbers decimal; chains 0,1,2 real, 3 = a chain name without client; token ids are local to a
-// chain, 0 = native coin; accounts: 0 user, 1 endpoint, 2 packet, 3 agent, 4 execute, 5 relayer (fee recipient), 6, 7):
+// chain, 0 = native coin; accounts: 0 user, 1 endpoint, 2 packet, 3 agent, 4 execute, 5 relayer (fee recipient), 6, 7 receivers, 8, 9 further senders):
 //   reset                                         -> ok
 //   deploy <chain> <tok>                          -> ok        (new ERC-20 deployed by the endpoint; user approves the endpoint)
-//   bind <chain> <tok> <oriChain> <oriTok>        -> ok        (endpoint.bindToken through the aggregate keeper)
+//   bind <chain> <tok> <oriChain> <oriTok> <scale> -> ok       (endpoint.bindToken through the aggregate keeper)
 //   mint <chain> <tok> <acct> <amt>               -> ok <dump chain>
-//   send <chain> <dst> <tok> <amt> <receiver> <feeTok> <feeAmt> <call>   -> ok|err <dump chain>
+//   approve <chain> <tok> <acct> <amt>            -> ok <dump chain>    (ERC-20 approve(endpoint, amt) by a keyed account 0|8|9)
+//   transfer <chain> <tok> <from> <to> <amt>      -> ok|err <dump chain> (ordinary coin / ERC-20 transfer by a keyed account)
+//   send <chain> <sender> <dst> <tok> <amt> <receiver> <feeTok> <feeAmt> <call>   -> ok|err <dump chain>
 //        call: n | po | pf | pr | ph | a:<refund>:<receiver>:<dst>:<fee>
 //   recv <src> <dst> <seq> [forge]                -> ok code=<ack code>|err <dump dst>
 //   ack  <src> <dst> <seq> [forge]                -> ok|err <dump src>
@@ -54,6 +56,9 @@ type c03Obs struct {
 	acked      bool
 	refunds    int // number of ack steps in which a refund of this packet was observed on src
 	fromNested bool
+	feeTok     common.Address // relay fee escrowed in the packet contract at send time
+	feeAmt     *big.Int
+	feePaid    int // ack steps in which the fee left the escrow towards the relayer
 	stuck      bool
 }
 
@@ -131,6 +136,13 @@ func (h *c03Harness) view(i int) c03View {
 		for a := 0; a < c03NAcc; a++ {
 			if b := w.balance(i, w.tok[i][t], w.acc[a]); b.Sign() != 0 {
 				parts = append(parts, fmt.Sprintf("b:%d.%d=%s", t, a, b))
+			}
+		}
+	}
+	for t := 1; t < ntok; t++ {
+		for _, a := range []int{c03AccAgent, c03AccU8, c03AccU9} {
+			if l := w.allowance(i, w.tok[i][t], w.acc[a]); l.Sign() != 0 {
+				parts = append(parts, fmt.Sprintf("l:%d.%d=%s", t, a, l))
 			}
 		}
 	}
@@ -255,11 +267,14 @@ func (h *c03Harness) conserved(A, B int, mech string) {
 				h.name(A)+"/"+strings.ToLower(T.String()))[0].(common.Address)
 		}
 		minted := big.NewInt(0)
+		k := big.NewInt(1) // 10^scale: one origin unit = k bound units; bindings.amount is kept in bound units
 		hasTrace := tr != (common.Address{})
 		if hasTrace {
-			if b := w.binding(B, tr, h.name(A)); b.Amount != nil {
+			b := w.binding(B, tr, h.name(A))
+			if b.Amount != nil {
 				minted = b.Amount
 			}
+			k = new(big.Int).Exp(big.NewInt(10), big.NewInt(int64(b.Scale)), nil)
 		}
 		fl, back := big.NewInt(0), big.NewInt(0)
 		for _, k := range h.keys {
@@ -274,17 +289,43 @@ func (h *c03Harness) conserved(A, B int, mech string) {
 				back.Add(back, o.amount)
 			}
 		}
-		rhs := new(big.Int).Add(minted, new(big.Int).Add(fl, back))
+		// k·escrowed = minted (bound units) + k·(in flight + in flight back)
+		lhs := new(big.Int).Mul(k, out)
+		rhs := new(big.Int).Add(minted, new(big.Int).Mul(k, new(big.Int).Add(fl, back)))
 		eq := fmt.Sprintf("%d/%d/%d", A, B, t)
-		if out.Cmp(rhs) != 0 && !h.brokenEq[eq] {
+		if lhs.Cmp(rhs) != 0 && !h.brokenEq[eq] {
 			h.brokenEq[eq] = true
-			h.find("C03:not-conserved:"+mech, fmt.Sprintf("pair %d->%d token %d: escrowed %s ≠ minted %s + in flight %s + in flight back %s", A, B, t, out, minted, fl, back),
-				"outTokens="+out.String(), "= "+rhs.String())
+			h.find("C03:not-conserved:"+mech, fmt.Sprintf("pair %d->%d token %d (1 unit = %s bound units): escrowed %s ≠ minted %s + in flight %s + in flight back %s", A, B, t, k, out, minted, fl, back),
+				"k*outTokens="+lhs.String(), "= "+rhs.String())
+		}
+	}
+}
+
+// feeConserved: on chain S, for every token, the packet contract's balance equals the relay fees of exactly the
+// packets whose commitment is still there (escrowed at send, paid to the relayer at the acknowledgement, never
+// lost, never paid for a packet that was not acknowledged).
+func (h *c03Harness) feeConserved(S int, mech string) {
+	w := h.w
+	for t := 0; t < len(w.tok[S]); t++ {
+		F := w.tok[S][t]
+		want := big.NewInt(0)
+		for _, k := range h.keys {
+			o := h.obs[k]
+			if o.src == S && o.feeAmt != nil && o.feeTok == F && (o.dst == c03Ghost || w.hasCommitment(S, o.dst, o.seq)) {
+				want.Add(want, o.feeAmt)
+			}
+		}
+		got := w.balance(S, F, w.acc[c03AccPacket])
+		eq := fmt.Sprintf("fee/%d/%d", S, t)
+		if got.Cmp(want) != 0 && !h.brokenEq[eq] {
+			h.brokenEq[eq] = true
+			h.find("C03:fee-escrow-mismatch:"+mech, fmt.Sprintf("chain %d token %d: packet contract holds %s, fees of unacknowledged packets sum to %s", S, t, got, want), got.String(), want.String())
 		}
 	}
 }
 
 func (h *c03Harness) conservedAround(x int, mech string) {
+	h.feeConserved(x, mech)
 	for y := 0; y < c03NChains; y++ {
 		if y != x {
 			h.conserved(x, y, mech)
@@ -324,6 +365,13 @@ func (h *c03Harness) callData(dst int, spec string) (contract string, data []byt
 	panic("bad call spec " + spec)
 }
 
+func c03Min(a, b uint64) uint64 {
+	if a < b {
+		return a
+	}
+	return b
+}
+
 func c03Mech(spec string) string {
 	if strings.HasPrefix(spec, "a:") {
 		return "agent"
@@ -346,6 +394,9 @@ func (h *c03Harness) observeNew(call string, nested bool) {
 				h.r.t.Fatalf("transfer data: %v", err)
 			}
 			o.token, o.oriToken, o.amount = strings.ToLower(td.Token), strings.ToLower(td.OriToken), new(big.Int).SetBytes(td.Amount)
+		}
+		if d != c03Ghost || true {
+			o.feeTok, o.feeAmt = h.w.packetFee(s, h.name(d), q)
 		}
 		h.obs[k] = o
 		h.keys = append(h.keys, k)
@@ -380,8 +431,8 @@ func (h *c03Harness) apply(op string) string {
 		w.coord.CommitBlock(w.ch[c])
 		return "ok"
 	case "bind":
-		c, v, oc, ot := c03Atoi(f[1]), c03Atoi(f[2]), c03Atoi(f[3]), c03Atoi(f[4])
-		if err := w.ch[c].App.AggregateKeeper.RegisterERC20Trace(w.ch[c].GetContext(), w.tok[c][v], strings.ToLower(w.tok[oc][ot].String()), h.name(oc), 0); err != nil {
+		c, v, oc, ot, sc := c03Atoi(f[1]), c03Atoi(f[2]), c03Atoi(f[3]), c03Atoi(f[4]), c03Atoi(f[5])
+		if err := w.ch[c].App.AggregateKeeper.RegisterERC20Trace(w.ch[c].GetContext(), w.tok[c][v], strings.ToLower(w.tok[oc][ot].String()), h.name(oc), uint8(sc)); err != nil {
 			r.t.Fatalf("bind failed: %v", err)
 		}
 		w.coord.CommitBlock(w.ch[c])
@@ -392,8 +443,35 @@ func (h *c03Harness) apply(op string) string {
 		w.mintERC20(c, w.tok[c][t], w.acc[a], amt)
 		w.coord.CommitBlock(w.ch[c])
 		return "ok " + h.view(c).String()
+	case "approve":
+		c, t, a := c03Atoi(f[1]), c03Atoi(f[2]), c03Atoi(f[3])
+		amt, _ := new(big.Int).SetString(f[4], 10)
+		data, _ := w.erc20().Pack("approve", endpointcontract.EndpointContractAddress, amt)
+		if failed, e, _ := w.sendTxAs(c, a, w.tok[c][t], big.NewInt(0), data); failed {
+			r.t.Fatalf("approve failed: %s", e)
+		}
+		w.coord.CommitBlock(w.ch[c])
+		r.Count("approve")
+		return "ok " + h.view(c).String()
+	case "transfer":
+		c, t, a, b := c03Atoi(f[1]), c03Atoi(f[2]), c03Atoi(f[3]), c03Atoi(f[4])
+		amt, _ := new(big.Int).SetString(f[5], 10)
+		var failed bool
+		if t == 0 {
+			failed, _, _ = w.sendTxAs(c, a, w.acc[b], amt, nil)
+		} else {
+			data, _ := w.erc20().Pack("transfer", w.acc[b], amt)
+			failed, _, _ = w.sendTxAs(c, a, w.tok[c][t], big.NewInt(0), data)
+		}
+		w.coord.CommitBlock(w.ch[c])
+		h.feeConserved(c, "transfer")
+		if failed {
+			return "err " + h.view(c).String()
+		}
+		return "ok " + h.view(c).String()
 	case "send":
-		c, d, t := c03Atoi(f[1]), c03Atoi(f[2]), c03Atoi(f[3])
+		c, snd, d, t := c03Atoi(f[1]), c03Atoi(f[2]), c03Atoi(f[3]), c03Atoi(f[4])
+		f = append([]string{f[0], f[1]}, f[3:]...) // the remaining fields as before
 		amt, _ := new(big.Int).SetString(f[4], 10)
 		rcv, ft := c03Atoi(f[5]), c03Atoi(f[6])
 		fa, _ := new(big.Int).SetString(f[7], 10)
@@ -416,7 +494,7 @@ func (h *c03Harness) apply(op string) string {
 		var failed bool
 		pan, msg := safely(func() {
 			var events sdk.Events
-			failed, _, events = w.sendTx(c, endpointcontract.EndpointContractAddress, value, payload)
+			failed, _, events = w.sendTxAs(c, snd, endpointcontract.EndpointContractAddress, value, payload)
 			if !failed {
 				w.notePackets(events.ToABCIEvents())
 			}
@@ -429,12 +507,18 @@ func (h *c03Harness) apply(op string) string {
 		after := h.view(c)
 		if failed {
 			r.Count("send.err")
+			if snd != c03AccUser {
+				r.Count("send.err.other-sender")
+			}
 			if after.String() != before.String() {
 				h.find("C03:failed-send-changed-state", "a failed crossChainCall transaction changed the chain's views", after.String(), before.String())
 			}
 			return "err " + after.String()
 		}
 		r.Count("send.ok")
+		if snd != c03AccUser {
+			r.Count("send.ok.other-sender")
+		}
 		r.Count("send.ok.call." + c03Mech(f[8]))
 		if t == 0 {
 			r.Count("send.ok.native")
@@ -460,6 +544,28 @@ func (h *c03Harness) apply(op string) string {
 			pkt, _ = p.ABIPack()
 		}
 		before := h.view(d)
+		// the quantity a successful execution must move on the destination: bindings.amount (bound units) for a
+		// token arriving, outTokens for a bound token coming home
+		credited := func() *big.Int {
+			o := h.obs[key]
+			if o == nil || o.amount == nil || d == c03Ghost {
+				return nil
+			}
+			if o.oriToken == "" {
+				tr := w.callView(d, endpointcontract.EndpointContract.ABI, endpointcontract.EndpointContractAddress, "bindingTraces", h.name(s)+"/"+o.token)[0].(common.Address)
+				if tr == (common.Address{}) {
+					return big.NewInt(0)
+				}
+				b := w.binding(d, tr, h.name(s))
+				k := new(big.Int).Exp(big.NewInt(10), big.NewInt(int64(b.Scale)), nil)
+				if b.Amount == nil {
+					return big.NewInt(0)
+				}
+				return new(big.Int).Div(b.Amount, k) // in origin units
+			}
+			return new(big.Int).Neg(w.outTokens(d, common.HexToAddress(o.oriToken), h.name(s)))
+		}
+		credBefore := credited()
 		hadAck := rec != nil && rec.ack != nil
 		var derr error
 		pan, msg := safely(func() { _, derr = w.relayRecv(s, d, q, pkt) })
@@ -489,11 +595,34 @@ func (h *c03Harness) apply(op string) string {
 		r.Count(fmt.Sprintf("recv.ok.code%d.call.%s", a.Code, o.call))
 		if o.oriToken != "" {
 			r.Count(fmt.Sprintf("recv.back.code%d", a.Code))
+			if w.binding(s, common.HexToAddress(o.token), h.name(d)).Scale > 0 {
+				r.Count(fmt.Sprintf("recv.back.scaled.code%d", a.Code))
+			}
+		} else if o.amount != nil && a.Code == 0 {
+			tr := w.callView(d, endpointcontract.EndpointContract.ABI, endpointcontract.EndpointContractAddress, "bindingTraces", h.name(s)+"/"+o.token)[0].(common.Address)
+			if w.binding(d, tr, h.name(s)).Scale > 0 {
+				r.Count("recv.ok.code0.scaled")
+			}
+		}
+		if o.fromNested {
+			r.Count(fmt.Sprintf("recv.hop2.code%d", c03Min(a.Code, 1)))
 		}
 		if a.Code != 0 && o.dstEffect {
 			// property: an error acknowledgement means no token or contract effect is left on the destination
 			h.find("C03:error-ack-with-destination-effect:"+o.call, fmt.Sprintf("packet %s: error acknowledgement (code %d) written, but the destination's token/contract views changed", key, a.Code),
 				after.tokenPart, before.tokenPart)
+		}
+		if credBefore != nil && !(o.call == "agent" && a.Code == 0) { // (an agent forward may burn / escrow on the same pair in the same step)
+			delta := new(big.Int).Sub(credited(), credBefore)
+			want := big.NewInt(0)
+			if a.Code == 0 {
+				want = o.amount
+			}
+			if delta.Cmp(want) != 0 {
+				// the acknowledgement code decides: code 0 <=> the transfer was applied exactly once, code != 0 <=> not at all
+				h.find(fmt.Sprintf("C03:ack-code-vs-effect:code%d:%s", c03Min(a.Code, 1), o.call), fmt.Sprintf("packet %s: acknowledgement code %d, destination moved %s of the %s sent", key, a.Code, delta, o.amount),
+					delta.String(), want.String())
+			}
 		}
 		h.conservedAround(d, "recv:"+o.call)
 		return fmt.Sprintf("ok code=%d %s", a.Code, after.String())
@@ -532,6 +661,11 @@ func (h *c03Harness) apply(op string) string {
 			outBefore = w.outTokens(s, T, h.name(d))
 			bindBefore = w.binding(s, T, h.name(d)).Amount
 		}
+		var relBefore, escBefore *big.Int
+		if o != nil && o.feeAmt != nil {
+			relBefore = w.balance(s, o.feeTok, w.acc[c03AccRelayer])
+			escBefore = w.balance(s, o.feeTok, w.acc[c03AccPacket])
+		}
 		var derr error
 		pan, msg := safely(func() { _, derr = w.relayAck(s, d, q, pkt, ack) })
 		if pan {
@@ -543,6 +677,17 @@ func (h *c03Harness) apply(op string) string {
 			if after.String() != before.String() {
 				h.find("C03:rejected-ack-changed-state", "a rejected MsgAcknowledgement changed the chain's views", after.String(), before.String())
 			}
+			if o != nil && rec != nil && rec.ack != nil && !forge && o.received && !o.acked && w.hasCommitment(s, d, q) {
+				// the genuine acknowledgement of a packet that is still committed, with its genuine proof: if it can
+				// not be processed the packet never ends and its relay fee (and any escrow) is lost for good
+				kind := "transfer"
+				if o.amount == nil {
+					kind = "call-only"
+				}
+				r.Count("ack.err.genuine")
+				h.find("C03:genuine-ack-rejected:"+kind, fmt.Sprintf("packet %s (ack code %d): the destination's genuine acknowledgement is rejected on the source; commitment and fee %v stay in escrow", key, o.ackCode, o.feeAmt),
+					"rejected", "accepted: fee to the relayer once, refund if the code is not 0")
+			}
 			return "err " + after.String()
 		}
 		if o == nil || forge {
@@ -551,6 +696,21 @@ func (h *c03Harness) apply(op string) string {
 		}
 		o.acked = true
 		h.observeNew("nested", true)
+		if o.feeAmt != nil {
+			// the relay fee leaves the escrow exactly once, at the acknowledgement, and reaches the relayer in full
+			dRel := new(big.Int).Sub(w.balance(s, o.feeTok, w.acc[c03AccRelayer]), relBefore)
+			dEsc := new(big.Int).Sub(escBefore, w.balance(s, o.feeTok, w.acc[c03AccPacket]))
+			if dRel.Sign() != 0 || dEsc.Sign() != 0 {
+				o.feePaid++
+			}
+			if dRel.Cmp(o.feeAmt) != 0 || dEsc.Cmp(o.feeAmt) != 0 || o.feePaid > 1 {
+				h.find("C03:fee-not-paid-once", fmt.Sprintf("packet %s: fee %s, relayer received %s, escrow released %s, paid %d times", key, o.feeAmt, dRel, dEsc, o.feePaid),
+					fmt.Sprint(dRel, dEsc, o.feePaid), "fee paid to the relayer exactly once")
+			}
+			if o.feeAmt.Sign() > 0 {
+				r.Count("ack.fee.paid")
+			}
+		}
 		status := w.ackStatus(s, h.name(d), q)
 		refunded := false
 		if o.amount != nil {
@@ -563,8 +723,9 @@ func (h *c03Harness) apply(op string) string {
 				o.refunds++
 				want := o.amount
 				got := dOut
-				if o.oriToken != "" {
+				if o.oriToken != "" { // a bound token that had been burnt: minted back in bound units
 					got = dBind
+					want = new(big.Int).Mul(o.amount, new(big.Int).Exp(big.NewInt(10), big.NewInt(int64(w.binding(s, T, h.name(d)).Scale)), nil))
 				}
 				if got.Cmp(want) != 0 {
 					h.find("C03:refund-wrong-amount", fmt.Sprintf("packet %s refunded %s, sent %s", key, got, want), got.String(), want.String())
@@ -578,6 +739,15 @@ func (h *c03Harness) apply(op string) string {
 			}
 		} else {
 			r.Count("ack.ok.error")
+			if o.fromNested {
+				r.Count("ack.ok.error.agent-callback")
+			}
+			if o.amount == nil {
+				r.Count("ack.ok.error.call-only")
+				if status != 2 {
+					h.find("C03:call-only-error-ack-status", fmt.Sprintf("packet %s (no transfer data): error acknowledgement accepted, status %d", key, status), fmt.Sprint(status), "2")
+				}
+			}
 			if o.amount != nil && o.amount.Sign() > 0 && (!refunded || status != 2) {
 				h.find("C03:no-refund-on-error-ack", fmt.Sprintf("packet %s: error acknowledgement but refunded=%v status=%d", key, refunded, status), fmt.Sprint(refunded, status), "refunded once, status 2")
 			}
